@@ -312,3 +312,14 @@ Example C10_indent_trailing_sep_refuted :
 Proof.
   eexists _, _. split; [vm_compute; reflexivity|]. repeat (split; [vm_compute; reflexivity|]). vm_compute. reflexivity.
 Qed.
+
+(* the first line: a prefix of luafmt's output (up to a chunk boundary) that consists of blanks only and holds no line feed is
+   empty - whatever begins the first line of the file (a code token or a comment) sits at column 0
+   (hypotheses as C10_shape; non-vacuity: C10_program_nonvacuous) *)
+Theorem C10_first_line : forall ts w root e,
+  lua_parse ts = Ok (root, e) -> consumed ts e = true -> writable ts root = true -> codes_tidy ts = true ->
+  exists cs, writer_text (fmt_spaces w) ts (view root) = Ok (chunks_text (fmt_spaces w) cs) /\ codes_of cs = sig_codes ts 0 /\
+    forall A B, cs = A ++ B -> noNL (chunks_text (fmt_spaces w) A) -> forallb is_sp (chunks_text (fmt_spaces w) A) = true ->
+      chunks_text (fmt_spaces w) A = [].
+Proof. exact program_first_line. Qed.
+Print Assumptions C10_first_line.
